@@ -85,6 +85,22 @@ def r1_template(ctx, chk, rule="C11.1"):
             return "7"
         if t[0] == "call" and t[1] == "str" and len(t[2]) == 1 and not t[3]:
             return piece_text(t[2][0])          # str() of a piece that is already text (a look-up in a table of strings)
+        if t[0] == "mcall" and t[2] == "join" and is_const(t[1]) and isinstance(t[1][1], str) and len(t[3]) == 1:
+            # sep.join(pieces): shown with two pieces, so that a separator that breaks the line is seen
+            arg = t[3][0]
+            el = None
+            if arg[0] == "compr" and arg[1] in sx.loops:
+                before = hole_ok
+                el = piece_text(sx.loops[arg[1]].elt)
+                if el is None:
+                    el = "X"        # an element built from slices / nested joins of other pieces; the separator is what is judged here
+                    hole_ok = before
+            elif arg[0] in ("list", "tup"):
+                parts = [piece_text(x) for x in arg[1]]
+                return None if any(x is None for x in parts) else t[1][1].join(parts)
+            if el is None:
+                return None
+            return el + t[1][1] + el
         if t[0] == "idx" and t[1][0] in ("list", "tup") and all(is_const(x) and isinstance(x[1], str) and "\n" not in x[1] for x in t[1][1]):
             return "X"
         if t[0] == "idx" and t[1][0] == "v":
@@ -521,6 +537,11 @@ def run(ctx, chk):
     from . import C15, C09
     C09.r123_check_game(ctx, chk, "C11.pre:C09.1")          # the solver's validation accepts every well-formed game
     C09.r4_check_next_states(ctx, chk, "C11.pre:C09.1")
+    # "each game is then either solved or reported as having no solution": no stray exception on a game whose states lose their
+    # transitions by pruning (generated boards have such states: an arrow pair pointing at each other)
+    from . import C06
+    C06.r3e_builtin_on_empty(ctx, chk, "C11.pre:C06.3e")
+    C06.r3b_constant_subscripts(ctx, chk, "C11.pre:C06.3b")
     C15.r1_ranges(ctx, chk, "C11.pre:C15.1")
     C15.r2_order(ctx, chk, "C11.pre:C15.2")
     chk.require_instances("C11.1", 2)
